@@ -25,7 +25,8 @@ RULE = (
     "files under tests/avro-files parsed by both and compared; (d) is_avro on every byte string of length <=6 over "
     "{O,b,j,01,00,X} (buffer) and a subset as paths, plus every file above: answer == startswith(magic); (e) block_reader "
     "offsets/sizes contiguous from end of header to end of file and counts summing to the record count, for every file of "
-    "(a),(b),(c). distinct_nontrivial = distinct files (byte strings) examined."
+    "(a),(b),(c),(f); (f) files grown by two re-openings for append (same codec argument, none, another codec, another marker) "
+    "parsed by the independent parser: records, unchanged header codec and marker. distinct_nontrivial = distinct files (byte strings) examined."
 )
 ASSUMPTIONS = [
     "independent parser/writer mc/ref/container.py + mc/ref/binary.py; zlib/bz2/lzma of the standard library are the codec reference",
@@ -41,6 +42,7 @@ def units(tier):
     codecs, _ = cont.available_codecs(w)
     us = [("a", si, c) for si in range(len(cont.top_schemas())) for c in codecs]
     us += [("b", si, c) for si in (2, 8, 13, 14, 16) for c in codecs]
+    us += [("f", si, c) for si in (2, 8, 14, 15) for c in codecs]
     us += [("c", os.path.basename(f)) for f in sorted(glob.glob(os.path.join(REPO, "tests", "avro-files", "*.avro")))]
     us += [("d", first) for first in range(6)]
     return us
@@ -143,6 +145,49 @@ def part_a(res, fa, si, codec, tier, seen):
                 res.stats["empty_blocks_written"] += 1
             tiling(res, fa, data, info, len(exp), p["hdr_end"], exp)
             is_avro_check(res, fa, data, info)
+
+
+def part_f(res, fa, si, codec, tier, seen):
+    """Files grown by re-opening for append (with the same, no, or another codec argument)
+    are files the container writer can produce: they too must parse independently."""
+    name, raw = cont.top_schemas()[si]
+    lists, node, defs = cont.record_lists(raw)
+    marker = cont.sync_marker()
+    other = "deflate" if codec != "deflate" else "null"
+    for lname, recs in lists:
+        if not recs:
+            continue
+        exp = cont.expected(node, defs, recs)
+        for how, kw, sch in (("same-codec", {"codec": codec}, raw), ("no-codec-arg", {}, None), ("other-codec", {"codec": other}, raw),
+                             ("other-marker", {"codec": codec, "sync_marker": b"Z" * 16}, None)):
+            for iv in (1, 16000):
+                info = {"part": "f", "schema": raw, "records": recs, "codec": codec, "append": how, "sync_interval": iv}
+                note_case(info)
+                res.evals += 1
+                fo = io.BytesIO()
+                try:
+                    fa.writer(fo, copy.deepcopy(raw), copy.deepcopy(recs), codec=codec, sync_interval=iv, sync_marker=marker)
+                    fo.seek(0, 2)
+                    fa.writer(fo, copy.deepcopy(sch) if sch is not None else None, copy.deepcopy(recs), sync_interval=iv, **kw)
+                    fo.seek(0, 2)
+                    fa.writer(fo, None, copy.deepcopy(recs[:1]), **kw)
+                except Exception as e:
+                    res.add(Violation("c05.f", f"append-raised:{type(e).__name__}", f"appending raised {type(e).__name__}: {e} | {short(info, 400)}", info))
+                    continue
+                data = fo.getvalue()
+                seen.add(data)
+                want = exp + exp + exp[:1]
+                try:
+                    p = container.parse(data)
+                    got, _ = container.records(p)
+                except Exception as e:
+                    res.add(Violation("c05.f", f"independent-parse-failed:{type(e).__name__}", f"independent parser rejects the appended file: {e} | {short(info, 400)}", info))
+                    continue
+                if len(got) != len(want) or not all(same(a, b) for a, b in zip(got, want)):
+                    res.add(Violation("c05.f", "independent-records-differ", f"independent parser recovers {short(got, 200)} expected {short(want, 200)} | {short(info, 400)}", info))
+                if p["meta"].get("avro.codec", b"null").decode() != codec or p["sync"] != marker:
+                    res.add(Violation("c05.f", "header-changed-by-append", f"header codec/marker after append: {p['meta'].get('avro.codec')!r} {p['sync'].hex()} | {short(info, 300)}", info))
+                tiling(res, fa, data, info, len(want), p["hdr_end"], want)
 
 
 def block_partitions(n):
@@ -283,6 +328,8 @@ def run_unit(unit, tier):
         part_a(res, fa, unit[1], unit[2], tier, seen)
     elif unit[0] == "b":
         part_b(res, fa, unit[1], unit[2], tier, seen)
+    elif unit[0] == "f":
+        part_f(res, fa, unit[1], unit[2], tier, seen)
     elif unit[0] == "c":
         part_c(res, fa, unit[1], seen)
     elif unit[0] == "d":
@@ -304,6 +351,11 @@ def replay(case):
         is_avro_check(res, fa, case["data"], case)
     elif part == "c":
         part_c(res, fa, case["file"], set())
+    elif part == "f":
+        si = [i for i, (n, r) in enumerate(cont.top_schemas()) if r == case["schema"]][0]
+        part_f(res, fa, si, case["codec"], "quick", set())
+        keep = [v for v in res.violations if v["case"].get("append") == case.get("append") and v["case"].get("records") == case.get("records")]
+        return keep or res.violations
     elif part in ("a", "b"):
         # re-run the whole (schema, codec) unit and keep what matches the recorded configuration
         si = [i for i, (n, r) in enumerate(cont.top_schemas()) if r == case["schema"]][0]
